@@ -17,6 +17,7 @@ import (
 	"strconv"
 	"strings"
 	"sync"
+	"sync/atomic"
 	"time"
 
 	"github.com/atomix/go-sdk/pkg/test"
@@ -105,7 +106,46 @@ func (h *hist) warmup() {
 	}()
 }
 
-func (h *hist) sid() string { h.step++; return fmt.Sprintf("%s.%d", h.id, h.step) }
+func (h *hist) sid() string {
+	h.step++
+	id := fmt.Sprintf("%s.%d", h.id, h.step)
+	tick(h.kind + " " + id)
+	return id
+}
+
+// ---------------------------------------------------------------------------------------------------
+// watchdog: every step of a history, every probe and every round of a stress writer ticks.  When nothing has ticked for
+// stallLimit the main goroutine is blocked inside a call of the store under test (a deadlock in the store is a violation of
+// the property, not a failure of the tool): the lines written so far are flushed, one c15.stall line names the step that
+// never returned, and the process ends normally so that the driver can judge the run.
+var (
+	progress  int64
+	curStep   atomic.Value
+	stallLimt = 75 * time.Second
+)
+
+func tick(label string) {
+	atomic.AddInt64(&progress, 1)
+	curStep.Store(label)
+}
+
+func watchdog() {
+	last, since := int64(-1), time.Now()
+	for {
+		time.Sleep(time.Second)
+		p := atomic.LoadInt64(&progress)
+		if p != last {
+			last, since = p, time.Now()
+			continue
+		}
+		if time.Since(since) > stallLimt {
+			l, _ := curStep.Load().(string)
+			out.Flush() // the main goroutine is blocked in a store call: nobody else writes
+			fmt.Fprintf(os.Stdout, "c15.stall\t%s\t%d\n", strings.ReplaceAll(l, "\t", " "), int(stallLimt.Seconds()))
+			os.Exit(0)
+		}
+	}
+}
 
 func valsStr(m map[string]pvv) string {
 	if len(m) == 0 {
@@ -721,6 +761,7 @@ func runProbeChild(name, kind string) {
 }
 
 func probe(id, name, kind string) string {
+	tick(kind + " probe " + name)
 	ctx, cancel := context.WithTimeout(context.Background(), 20*time.Second)
 	defer cancel()
 	cmd := exec.CommandContext(ctx, os.Args[0], "-probe", name, "-kind", kind)
@@ -786,6 +827,7 @@ func stress(r *rand.Rand, kind, id string, writers, rounds int) {
 			defer wg.Done()
 			rr := rand.New(rand.NewSource(seed))
 			for n := 0; n < rounds; n++ {
+				tick(kind + " stress " + id)
 				k := keys[rr.Intn(nk)]
 				cur, err := a.get(k)
 				if err != nil {
@@ -873,6 +915,8 @@ func main() {
 	r := rand.New(rand.NewSource(*seed))
 	out = bufio.NewWriterSize(os.Stdout, 1<<20)
 	defer out.Flush()
+	tick("start")
+	go watchdog()
 
 	v3cancel := true
 	for _, k := range kinds {
